@@ -9,7 +9,7 @@
    Dependencies() lists the inputs is an oracle; [sorted_oracle] is the repaired code (sort by name),
    [oracle_ok] only asks that each enumeration is a permutation of the inputs (a Go map iteration). *)
 From Coq Require Import String.
-From PF Require Import Base.Bytes Graph.Nodes Graph.NodesProofs Graph.NodesMore Graph.NodesLazy Graph.NodesLazyProofs.
+From PF Require Import Base.Bytes Graph.Nodes Graph.NodesProofs Graph.NodesMore Graph.NodesLazy Graph.NodesLazyProofs Graph.NodesLazyHist.
 Local Open Scope nat_scope.
 
 (* Sentence 1: reading a node output returns the value that evaluating the current graph from scratch
@@ -416,3 +416,48 @@ Example c11_lazy_example :
     execs_of (fst s2) 3 = 1 /\
     eval_scratch 5 (graph_of (fst s2)) 3 = Some (outT (fst s2) 3).
 Proof. exact lazy_witness. Qed.
+
+(* ====================================================================================================== *)
+(* The FULL statements for processors that skip inputs (proofs: Graph/NodesLazyHist.v; the two "_partial" theorems
+   above are the steps they are built from).  Class: every processor reads its ports in declaration order and a
+   function [stops n] of the VALUES read so far may end the reading ([lazy_procs]: as a function of all inputs it
+   looks only at that prefix); graphs of any depth; the repaired, deterministic Dependencies() order (one order
+   [po] for recording and comparing; any permutation).
+
+   SENTENCE 1: after every history of parameter updates, re-wiring and reads from the unconnected graph, a read
+   returns the from-scratch value of the current wiring and parameters; it leaves the wiring alone and the node read
+   is up to date afterwards. *)
+Theorem read_fresh_skipping_processors : forall po stops ds h s n s' v,
+  perm_ok po -> lazy_procs stops (nodes (init ds)) ->
+  lrun po stops (linit ds) h = Some s ->
+  lvalue po stops (fuel_of (fst s)) s n = Some (s', v) ->
+  eval_scratch (fuel_of (fst s)) (graph_of (fst s)) n = Some v /\
+  graph_of (fst s') = graph_of (fst s) /\ lclean po s' n.
+Proof. exact lazy_read_fresh. Qed.
+Print Assumptions read_fresh_skipping_processors.
+
+(* SENTENCE 2: a node that is up to date — in particular the node just read, by the theorem above — does not
+   execute and stays up to date during any continuation none of whose edits (parameter update, Connect, Disconnect)
+   targets a node of its READ cone: the cone through the dependencies its last run read ([rreach]: unflagged
+   positions only), taken in the state the edit is applied to ([quiet]).  Inputs that were not read may change,
+   be re-wired, be evaluated by others: the node does not run again.
+   PARTIAL in one respect (kept visible): the premise is "up to date"; that every node that EXECUTED during a read
+   (as an input of the node read) is up to date at the end of it — [Xc] of the eager development — is not proved for
+   [lvalue], nor is Version() = executions restated for [lrun] (the version field moves only in [exec_node], as before). *)
+Theorem exec_only_if_read_cone_changed_skipping_processors_partial : forall po stops h s s1 n,
+  perm_ok po -> GoodL po stops s -> lclean po s n ->
+  lrun po stops s h = Some s1 -> quiet po stops n s h ->
+  execs_of (fst s1) n = execs_of (fst s) n /\ lclean po s1 n.
+Proof. intros po stops h s s1 n PO. exact (lazy_exec_only_if_read_cone_touched po stops PO h s s1 n). Qed.
+Print Assumptions exec_only_if_read_cone_changed_skipping_processors_partial.
+
+(* every reachable state is "good" (the premise above is never vacuous), and the witness graph satisfies [lazy_procs] *)
+Theorem reachable_states_are_good : forall po stops ds h s,
+  perm_ok po -> lazy_procs stops (nodes (init ds)) -> lrun po stops (linit ds) h = Some s -> GoodL po stops s.
+Proof.
+  intros po stops ds h s PO LP R. exact (lrun_GoodL po stops PO _ _ _ (linit_GoodL po stops ds LP) R).
+Qed.
+Print Assumptions reachable_states_are_good.
+
+Example c11_lazy_procs_example : lazy_procs lazy_stops (nodes (init lazy_decls)).
+Proof. exact lazy_witness_procs. Qed.
